@@ -252,6 +252,28 @@ func fontSet(thorough bool) []fontSpec {
 		res = append(res, fontSpec{ID: "lkc", Desc: "constructed CFF with GSUB 1-6 / GPOS 1-4,7,8 in all formats", build: lkc})
 		res = append(res, fontSpec{ID: "lkcrt", Desc: "read back CFF with GSUB 1-6 / GPOS 1-4,7,8 in all formats", build: roundTripID("lkcrt", lkc)})
 	}
+	// optional data missing in the font value: operations must not fill it in behind the caller's back
+	res = append(res, fontSpec{ID: "cffnn", Desc: "constructed simple CFF font in which glyphs 2 and 4 have an empty name",
+		build: func() (*sfnt.Font, error) {
+			f := fonts.Make(vio.Rand(311), fonts.Opts{Kind: "cff", N: 7, Cmap: "4", Names: true})
+			o := f.Outlines.(*cff.Outlines)
+			for _, i := range []int{2, 4} {
+				if i < len(o.Glyphs) {
+					o.Glyphs[i].Name = ""
+				}
+			}
+			return f, nil
+		}})
+	res = append(res, fontSpec{ID: "ttfsn", Desc: "constructed TrueType font whose names list is shorter than the glyph count and has an empty entry",
+		build: func() (*sfnt.Font, error) {
+			f := fonts.Make(vio.Rand(312), fonts.Opts{Kind: "ttf", N: 9, Cmap: "4", Names: true})
+			o := f.Outlines.(*glyf.Outlines)
+			if len(o.Names) > 5 {
+				o.Names = append([]string(nil), o.Names[:5]...)
+				o.Names[3] = ""
+			}
+			return f, nil
+		}})
 	res = append(res, fontSpec{ID: "goregular", Desc: "Go Regular (golang.org/x/image) read by sfnt.Read",
 		build: fonts.GoRegular})
 	res = append(res, fontSpec{ID: "macroman", Desc: "258-glyph TrueType font with post version 1: Names is post.macRoman",
